@@ -1,8 +1,28 @@
-"""C04 -- every raised exception becomes the response its most specific handler defines."""
+"""C04 -- every raised exception becomes the response its most specific handler defines.
+
+Chain (falcon/app.py, falcon/asgi/app.py, falcon/app_helpers.py, falcon/http_error.py):
+
+    App.__init__ / asgi.App.__init__   default registry {Exception, HTTPError, HTTPStatus} -> the three default handlers
+    add_error_handler (both apps)      registry write: last registration per class wins; class or iterable; TypeError for
+                                       non-exception classes; omitted handler = exception.handle; legacy-signature shim (WSGI)
+    _find_error_handler                handler of the first registered class of type(ex).__mro__[:-1]; None iff none
+    _handle_exception (both apps)      text/data/media (+ rendered-media cache) discarded BEFORE the handler runs; handler gets
+                                       exactly (req, resp, ex, params); HTTPStatus / HTTPError raised by it are rendered; anything
+                                       else propagates; True iff a handler existed
+    _compose_status_response / _compose_error_response, _http_status_handler / _http_error_handler / _python_error_handler
+    default_serialize_error            negotiation decision table, Vary: Accept on every path
+    HTTPError.__init__ / to_dict / to_json / _to_xml
+
+plus one end-to-end harness per stack: App() as constructed by the real __init__, an arbitrary raised exception, the real
+default handlers and default_serialize_error, down to the response fields ("a 500 and never escapes").
+
+Class hierarchies are real classes built with type(); the registry is a real dict; handlers, the request, the media
+handlers and the encoders are opaque recording stubs.  Every harness also runs natively for replay.
+"""
 from __future__ import annotations
 
-from pyvc.core import And, ExcVal, Iff, Implies, Ite, Len, Not, Obj, Or, PyRaise, SDict, Unreached
-from pyvc.harness import Ready, Registry, harness, stubclass
+from pyvc.core import And, ExcVal, Len, PyRaise, SDict, Unreached
+from pyvc.harness import Ready, harness, stubclass
 
 PROP = 'C04'
 APP = 'falcon.app:App'
@@ -1244,4 +1264,40 @@ HARMLESS = [
      "            found = self._error_handlers.get(exc)\n\n            if found is not None:\n                return found\n"),
     ('falcon/app.py', "        err_handler = self._find_error_handler(ex)\n\n        # NOTE(caselit): Reset body, data and media before calling the handler\n        resp.text = resp.data = resp.media = None\n",
      "        resp.media = None\n        resp.data = None\n        resp.text = None\n        err_handler = self._find_error_handler(ex)\n"),
+]
+
+FINDINGS = [
+    # refuted on the unchanged tree, replayed natively (also through simulate_request on both stacks):
+    "falcon.app:App._compose_error_response#set-cookie-among-error-headers-does-not-escape and "
+    "falcon.app:App._compose_status_response#set-cookie-among-status-headers-does-not-escape: an HTTPError / HTTPStatus whose "
+    "headers contain Set-Cookie (any spelling; dict or list of pairs), e.g. `raise falcon.HTTPBadRequest(headers={'Set-Cookie': 'a=b'})`, "
+    "is not rendered: Response.set_headers raises HeaderNotSupported (a ValueError) inside the default handler, it leaves "
+    "_handle_exception and App.__call__ (WSGI and ASGI) and reaches the server instead of a 400 with that header.",
+]
+ASSUMPTIONS = [
+    'exception class hierarchies are enumerated, not universally quantified: chains of 1..4 classes, a diamond, a join with a BaseException-only root, '
+    'a class below the builtin chain LookupError/ValueError; every subset of {those classes, Exception, BaseException} as registry domain; every raised class',
+    'application error handlers are opaque callables that return, raise an HTTPStatus, raise an HTTPError or raise another Exception',
+    'headers of a raised HTTPError/HTTPStatus are None, a list of pairs or a dict with at most two entries; names arbitrary except Set-Cookie (own harness, see FINDINGS); str.lower is uninterpreted',
+    'Request.client_prefers(offers) returns None or one of the offers (C11); media_handlers._resolve(t, default, raise_not_found=False) returns (handler or None, _, _) and does not raise',
+    'media handler .serialize, JSONHandler._serialize_s (json.dumps + encode) and ElementTree.tostring are total, faithful encoders of what they are given '
+    '(not total in fact for str with lone surrogates: UnicodeEncodeError would escape like the Set-Cookie case); uri.encode is an opaque deterministic function',
+    'HTTPError status is a status line with a reason phrase: code_to_http_status returns it unchanged (C05)',
+    'App.__init__: add_middleware and the constructors of the router / RequestOptions / ResponseOptions / CORSMiddleware / WebSocketOptions do not touch _error_handlers or _serialize_error (read, stubbed as no-ops)',
+    'three configurations of registered media types; resp.options.xml_error_serialization both ways',
+    'ASGI: FALCON_ASGI_WRAP_NON_COROUTINES is not set; handlers are coroutine callables',
+]
+NOT_DECIDED = [
+    'the four try windows of App.__call__ / asgi.App.__call__ (every raise site reaches _handle_exception; re-raise only when it returns False): C03 run',
+    'escaping correctness of the JSON / XML bytes and of uri.encode(href)',
+    'WebSocket branch (resp is None, ws given) of asgi _handle_exception and of the three handlers; _ws_disconnected_error_handler',
+    'ASGI add_error_handler: CompatibilityError for non-coroutine python functions',
+    'exceptions raised by collaborators of the default handlers (req.log_error, a custom error serializer, a custom JSON handler) propagate out of _handle_exception (scope note in DESIGN.md)',
+    'constructors of the HTTPError / HTTPStatus subclasses in errors.py / redirects.py (which status/headers they carry)',
+]
+TRUSTED = [
+    'stubs in contracts/C04_errors.py: Handler, LegacyHandler, Serializer, Req/NegReq/FullReq, MediaHandlers, Options, JsonH, XEl (element tree)',
+    'local models: tuple(class) raises TypeError, warnings.warn / logging.Logger.error have no effect, inspect.iscoroutinefunction and falcon.util.misc.get_argnames / '
+    'is_python_func run natively on concrete callables (parameter list of the def for interpreted methods), xml.etree Element/SubElement/tostring, uri.encode, code_to_http_status',
+    'header map helpers Map / header_map / map_of (copied from C20)',
 ]
